@@ -122,6 +122,8 @@ var fCodePool = []string{
 // code blocks the hand-written bootstrap scanner understands: braces balanced as plain characters
 var fCodePoolBoot = []string{
 	"{ return nil, nil }",
+	"{\r\n\treturn string(c.text), nil\r\n}", // a block of a file with CRLF line ends: the code text keeps them
+	"{ return nil, nil // x\r\n}",
 	"{\n\treturn string(c.text), nil\n}",
 	"{}",
 	"{ if true { return 1, nil }; return 2, nil }",
